@@ -447,6 +447,13 @@ func generateSafeImageFileName(imageID int, originalFileName string, format Imag
 
 // AddImageFromData 从数据添加图片到文档
 func (d *Document) AddImageFromData(imageData []byte, fileName string, format ImageFormat, width, height int, config *ImageConfig) (*ImageInfo, error) {
+	// 只接受本库能登记内容类型的格式：其他格式的媒体部件在 [Content_Types].xml 里没有类型，文档打不开
+	switch format {
+	case ImageFormatPNG, ImageFormatJPEG, ImageFormatGIF:
+	default:
+		return nil, fmt.Errorf("不支持的图片格式: %q", string(format))
+	}
+
 	// 保存图片数据的副本：调用方之后可以继续使用（复用）自己的缓冲区，已添加的图片不受影响
 	imageData = append([]byte(nil), imageData...)
 
@@ -504,6 +511,13 @@ func (d *Document) AddImageFromData(imageData []byte, fileName string, format Im
 // AddImageFromDataWithoutElement 从数据添加图片到文档但不创建段落元素
 // 此方法供模板引擎等需要自行管理图片段落的场景使用
 func (d *Document) AddImageFromDataWithoutElement(imageData []byte, fileName string, format ImageFormat, width, height int, config *ImageConfig) (*ImageInfo, error) {
+	// 只接受本库能登记内容类型的格式：其他格式的媒体部件在 [Content_Types].xml 里没有类型，文档打不开
+	switch format {
+	case ImageFormatPNG, ImageFormatJPEG, ImageFormatGIF:
+	default:
+		return nil, fmt.Errorf("不支持的图片格式: %q", string(format))
+	}
+
 	// 保存图片数据的副本：调用方之后可以继续使用（复用）自己的缓冲区，已添加的图片不受影响
 	imageData = append([]byte(nil), imageData...)
 
